@@ -1003,3 +1003,7 @@ mod tests {
         );
     }
 }
+
+#[cfg(kani)]
+#[path = "/verif/kani/arrow-buffer/util/bit_iterator.rs"]
+mod verif_kani;
